@@ -179,7 +179,7 @@ def _applies(cfg, rec):
                   lambda mm, vars_=vars_: {"env": model_env(mm, vars_)})
         if m is not None:
             rec.validate("path", model_env(m, vars_), {"r": bool(r)})
-        rec.sample({"pc": [str(c) for c in ctx.pc][:6], "applies": bool(r)})
+        rec.want_sample() and rec.sample({"pc": [str(c) for c in ctx.pc][:6], "applies": bool(r)})
 
 
 # ------------------------------------------------------------------ slices
@@ -250,7 +250,7 @@ def _slice(cfg, rec):
             rec.check_all(ctx, items, wit)
             if m is not None:
                 rec.validate("path", dict(model_env(m, vars_), reversed=rv), {"start": int(out.start), "stop": int(out.stop)})
-            rec.sample({"pc": [str(c) for c in ctx.pc][:6], "slice": [int(out.start), int(out.stop)]})
+            rec.want_sample() and rec.sample({"pc": [str(c) for c in ctx.pc][:6], "slice": [int(out.start), int(out.stop)]})
 
 
 def _monotone(cfg, rec):
@@ -283,7 +283,7 @@ def _monotone(cfg, rec):
                   "slice:monotone", wit)
         if m is not None:
             rec.validate("path", model_env(m, vars_), {"s1": [int(s1.start), int(s1.stop)], "s2": [int(s2.start), int(s2.stop)]})
-        rec.sample({"pc": [str(c) for c in ctx.pc][:6], "slices": [sorted(a1), sorted(a2)]})
+        rec.want_sample() and rec.sample({"pc": [str(c) for c in ctx.pc][:6], "slices": [sorted(a1), sorted(a2)]})
 
 
 # ------------------------------------------------------------------ equal-area index sets
@@ -339,7 +339,7 @@ def _area(cfg, rec):
         rec.check_all(ctx, items, wit)
         if m is not None:
             rec.validate("path", model_env(m, vars_), {"indices": idx})
-        rec.sample({"pc": [str(c) for c in ctx.pc][:6], "area_indices": idx})
+        rec.want_sample() and rec.sample({"pc": [str(c) for c in ctx.pc][:6], "area_indices": idx})
 
 
 # ------------------------------------------------------------------ constraints / relations on matrices
@@ -434,7 +434,7 @@ def _reduce(cfg, rec):
         rec.check_all(ctx, items, wit)
         if m is not None:
             rec.validate("path", model_env(m, vars_), {"affected": affected})
-        rec.sample({"pc": [str(c) for c in ctx.pc][:6], "affected_indices": affected})
+        rec.want_sample() and rec.sample({"pc": [str(c) for c in ctx.pc][:6], "affected_indices": affected})
 
 
 # ------------------------------------------------------------------ model weights
@@ -520,7 +520,7 @@ def _weight(cfg, rec):
         if m is not None:
             env = model_env(m, vars_)
             rec.validate("path", env, {"w": [core.evalf(zreal(x), env) for x in np.asarray(w, dtype=object).flat]})
-        rec.sample({"pc": [str(c) for c in ctx.pc][:6], "w00": str(zreal(w[0, 0]))})
+        rec.want_sample() and rec.sample({"pc": [str(c) for c in ctx.pc][:6], "w00": str(zreal(w[0, 0]))})
 
 
 def _in_hull(axz, k, lo, hi):
@@ -562,7 +562,7 @@ def _weight2(cfg, rec):
                   "weight:dataset-and-model:value"),
                  ("exactly one warning", z3.BoolVal(nwarn == 1), "weight:dataset-and-model:warning")]
         rec.check_all(ctx, items, wit)
-        rec.sample({"warnings": nwarn})
+        rec.want_sample() and rec.sample({"warnings": nwarn})
 
 
 # ------------------------------------------------------------------ float side
